@@ -29,6 +29,18 @@ theorem dquote_quotes (v : Str) (h : ∃ c ∈ v, c = ',' ∨ c = ';' ∨ c = ':
   refine ⟨c, mem_rep1_of_ne DQ _ c hne v hc, ?_⟩
   rcases hcase with e | e | e <;> (rw [e]; decide)
 
+/-- The backslash is in QUOTABLE (repair 89027b2): a value holding one is emitted inside double quotes, so a
+    backslash at the END of a value can no longer stand in front of the delimiter the library writes after the
+    value (`\\;` `\\:` `\\,` are what `escape_string` hides).  The recorded finding `param-escape-hazard` is
+    about backslash sequences INSIDE a quoted value only; this theorem keeps the repaired part repaired. -/
+theorem quotable_backslash : inClass Gen.quotable '\\' = true := by decide
+
+theorem dquote_quotes_backslash (v : Str) (h : '\\' ∈ v) :
+    dquote v = DQ :: rep1 DQ ['\''] v ++ [DQ] := by
+  rw [dquote_def, if_pos]
+  rw [List.any_eq_true]
+  exact ⟨'\\', mem_rep1_of_ne DQ _ '\\' (by decide) v h, by decide⟩
+
 /-- `q_split` inverts joining on `sep` for segments that hold no `sep` outside double quotes and
     close their quotes. (`sep ≠ DQ` is necessary: `q_split('a"b', '"')` is `['a"b']`.) -/
 theorem qsplit_join (sep : Char) (hs : sep ≠ DQ) (segs : List Str) (hne : joinWith [sep] segs ≠ [])
